@@ -196,7 +196,7 @@ fn stub_digits<'a>(pin: u32, out: &'a mut [u8; 10]) -> &'a mut [u8] {
 /// C16: the hash is SHA-1(client salt | SHA-1(server salt | remapped digits as ASCII)); none below 1000.
 /// The layout and the digits are uninterpreted here (lemmas c16_remap_* and c16_digits).
 #[kani::proof]
-#[kani::unwind(70)]
+#[kani::unwind(22)]
 #[kani::stub(crate::pin::remap_pin_grid, stub_grid)]
 #[kani::stub(crate::pin::pin_to_bytes, stub_digits)]
 fn c16_hash_msg() {
